@@ -181,6 +181,16 @@ Section C14.
   Proof. exact (interp_never_both m nr nc off disp mask NB). Qed.
 End C14.
 
+(* the outputs on the map depend only on the values on the map: no theorem above rests on a
+   default returned by an out-of-range read of the (total) model functions *)
+Theorem C14_reads_only_the_map : forall m nr nc off disp mask disp2 mask2,
+  (forall r c, 0 <= r < nr -> 0 <= c < nc -> disp r c = disp2 r c) ->
+  (forall r c, 0 <= r < nr -> 0 <= c < nc -> mask r c = mask2 r c) ->
+  forall r c, 0 <= r < nr -> 0 <= c < nc ->
+    fst (interp m nr nc off disp mask) r c = fst (interp m nr nc off disp2 mask2) r c /\
+    snd (interp m nr nc off disp mask) r c = snd (interp m nr nc off disp2 mask2) r c.
+Proof. exact interp_ext. Qed.
+
 (* ---------------------------------------------------------------- in the state machine *)
 
 Theorem C14_cross_check_never_both : forall thr me other, ds_nc me <= 2 ^ 63 ->
@@ -323,6 +333,7 @@ Print Assumptions C14_unfillable_stays_invalid.
 Print Assumptions C14_border_bit0.
 Print Assumptions C14_no_wrap.
 Print Assumptions C14_never_both_preserved.
+Print Assumptions C14_reads_only_the_map.
 Print Assumptions C14_cross_check_never_both.
 Print Assumptions C14_validation_run.
 Print Assumptions C14_after_cross_check.
